@@ -18,7 +18,7 @@ import time
 
 ID = 'C18'
 LEVEL = 'model_checking'
-RULE = ('explicit enumeration of ALL histories of length <= depth over 10 (deck, options) items chosen to collide '
+RULE = ('explicit enumeration of ALL histories of length <= depth over 11 (deck, options) items chosen to collide '
         '(identical cell / surface numbers with different geometry, universe and lattice decks, a deck that '
         'fails midway, the same deck under other options); each history runs in one fresh interpreter and every '
         'step is compared byte-for-byte (header removed) with the golden output of the item from a fresh '
@@ -166,6 +166,25 @@ m2 26056 0.9 26054 0.1
 m3 1001 2 8016 1
 mode n p e
 """, [])
+ITEMS['k'] = ("""deck k: two --lattice options for one cell (the last one counts), one for a LIKE copy
+1 0 -1 fill=2 imp:n=1
+5 0 -5 fill=4 imp:n=1
+2 0 1 5 imp:n=0
+20 0 -11 12 -13 14 lat=1 u=2 fill=3 imp:n=1
+21 like 20 but u=4
+31 1 -2.7 -3 u=3 imp:n=1
+32 0 3 u=3 imp:n=1
+
+1 so 9
+5 s 30 0 0 9
+3 px 0.2
+11 px 1
+12 px -1
+13 py 1
+14 py -1
+
+m1 13027 1
+""", ['--lattice', '20,0:1,0:0', '--lattice', '21,-1:0,0:1', '--lattice', '20,-1:1,0:0'])
 NAMES = sorted(ITEMS)
 
 WORKER = r'''
